@@ -143,6 +143,27 @@ func (g *VGen) gen(n *Node) reflect.Value {
 	case KByteArr:
 		c := g.content(n.N, false)
 		reflect.Copy(v, reflect.ValueOf(c))
+	case KCustom:
+		// small alphabets so that every validator predicate is hit on both sides; honoured values satisfy it
+		pred := zooPreds[n.Pred]
+		for try := 0; try < 20; try++ {
+			var p []byte
+			if n.T == tZooFix || n.T == tZooFixV {
+				p = []byte{vx.Pick(r, []byte{0, 1, 2, 5, 255}), vx.Pick(r, []byte{0, 1, 2, 6, 255})}
+			} else {
+				l := vx.Pick(r, []int{0, 1, 2, 2, 3, 4})
+				if !g.honor && r.Chance(1, 30) {
+					l = vx.Pick(r, []int{255, 256}) // 256: the type's own Encode refuses
+				}
+				for i := 0; i < l; i++ {
+					p = append(p, vx.Pick(r, []byte{0, 1, 2, 7, 255}))
+				}
+			}
+			zooSet(v, p)
+			if pred == nil || pred(p) || !(g.honor || r.Chance(1, 2)) {
+				break
+			}
+		}
 	case KU256:
 		switch c := r.Intn(20); {
 		case c == 0 && !g.honor:
@@ -382,6 +403,8 @@ func toCoq(n *Node, v reflect.Value) string {
 		b := make([]byte, n.N)
 		reflect.Copy(reflect.ValueOf(b), v)
 		return "(VBytes " + vx.Bytes(b) + ")"
+	case KCustom:
+		return "(VBytes " + vx.Bytes(zooPayload(v)) + ")"
 	case KU256:
 		if v.IsNil() {
 			return "VNil"
